@@ -24,6 +24,8 @@ type c07Spec struct {
 	D        int      `json:"d,omitempty"`
 	Word     []string `json:"word,omitempty"`
 	Long     *lwSpec  `json:"long,omitempty"` // a long world (long.go) instead of words
+	TillCM2  int      `json:"till_cm2,omitempty"` // a second mixing tillage two days after the first
+	TillCM3  int      `json:"till_cm3,omitempty"` // ... and a third one two days later
 	Factor   int      `json:"factor,omitempty"` // global fertilisation factor in % + 1 (0 = the default 100 %)
 }
 
@@ -57,6 +59,15 @@ func c07Specs(tier string, seed int) []c07Spec {
 				}
 				i++
 			}
+		}
+	}
+	// A1: repeated mixing tillages (the second and third redistribute what the first spread), also below the mineralisation zone
+	for _, so := range []string{"loam12", "sand20", "peat12", "three"} {
+		for _, t := range [][3]int{{40, 35, 50}, {35, 50, 40}, {25, 25, 25}, {15, 20, 15}, {50, 10, 50}, {30, 30, 0}} {
+			if t[0] > 10*soilN(so) || t[1] > 10*soilN(so) || t[2] > 10*soilN(so) {
+				continue
+			}
+			out = append(out, c07Spec{Base: e1Base{Soil: so, GW: 99, InitW: 0.7, InitN: 30, ET: 3}, Fert: "RG", TillCM: t[0], TillTyp: 1, TillCM2: t[1], TillCM3: t[2], Alpha: c07Alpha[:3], D: 2})
 		}
 	}
 	// A2: every fertiliser type under the global fertilisation factors 0, 25, 50 and 250 % (bare soil, no tillage)
@@ -301,6 +312,9 @@ func c07Run(raw json.RawMessage, c *mc.Ctx) {
 		ws = [][]string{sp.Word}
 	}
 	warm := sp.Base.WarmUp
+	if sp.TillCM2 > 0 && warm < 6 {
+		warm = 6
+	}
 	ndays := 2 + warm + len(ws[0])
 	p := e1Project(sp.Base, ndays)
 	h0 := p.Rotation[0].Harvest
@@ -313,6 +327,13 @@ func c07Run(raw json.RawMessage, c *mc.Ctx) {
 	}
 	if sp.TillCM > 0 && sp.Base.Crop == "" {
 		p.Till = []proj.Till{{Date: isoAdd(h0, first-1), Depth: sp.TillCM, Typ: sp.TillTyp}}
+		if sp.TillCM2 > 0 {
+			// the first two tillages fall into the warm-up (which is lengthened for them), the last one before the word
+			p.Till = []proj.Till{{Date: isoAdd(h0, first-5), Depth: sp.TillCM, Typ: sp.TillTyp}, {Date: isoAdd(h0, first-3), Depth: sp.TillCM2, Typ: sp.TillTyp}}
+			if sp.TillCM3 > 0 {
+				p.Till = append(p.Till, proj.Till{Date: isoAdd(h0, first-1), Depth: sp.TillCM3, Typ: sp.TillTyp})
+			}
+		}
 	}
 	p.Weather = e1Weather(warm, ws[0], false)
 	p.Write(root)
